@@ -187,6 +187,7 @@ def run(ctx):
     bindir = vlib.build_harness(False, bins=["hostdrive"])
     fails = vlib.proof_step(ctx, "TG.Props.C12", THEOREMS, ["props/C12.vo"], TRUSTED, translators=[])
     exe = vlib.build_model("host")
+    H.calibrate(bindir)
     cases, nfam, nrand, L = gen_cases(ctx)
     res, viol, ties, stats = check(ctx, bindir, exe, cases)
     found = False
